@@ -10,6 +10,9 @@ six components x seeds {0, 1, 2**32-1} x scale factors.  Two further families on
 direction grids that do not start at 0 (energy in every bin, the last one included), and every signal
 length of a contiguous range for dyadic and non-dyadic sampling rates with energy at the Nyquist
 frequency (the number of FFT bins must not depend on float rounding of the frequency grid).
+Two families in which the SAME spectrum object is used more than once: spectra defined exactly on the
+FFT grid of the request, and all histories of <= 3 generate / in-place-mutate events on one object.
+In every family surface_timeseries must leave the object it was given bit-for-bit unchanged.
 
 Oracle (numpy / math only, nothing imported from the library): the series has as many samples as
 its time axis and time[k] = k/fs; the same seed gives bit-identical series, different seeds give
@@ -41,7 +44,14 @@ RULE = (
     "restriction lengths {16,17,100}, seed {1}, no scale / repeat call (thorough: lengths {16,17,100,1000}, all "
     "seeds, c=0.3). Dense family: a ramp spectrum on a 0..6 Hz grid (energy at and beyond fs/2) x rates "
     "{0.5,0.7,1,2.5,3.3,10} (thorough: +1.28) x EVERY length 8..260 (thorough: 8..520) x components {z,w} "
-    "(thorough: all six, and the 1D spectrum with {z,w}) x seed {1}. A member is non-trivial when the reference variance of that "
+    "(thorough: all six, and the 1D spectrum with {z,w}) x seed {1}. On-grid family: a ramp spectrum (1D, and 2D in bin 1 of N=8) "
+    "whose frequency grid is bit-identical to the FFT grid of the request, rates x lengths {16,17,100} (thorough: "
+    "+101,1000) x all components x seeds {0,1}, each call repeated on the same object. History family: one 1D "
+    "and one 2D object, every event sequence of length <= 3 that ends with a generate over {generate(comp, fs, n, "
+    "seed 1): comp in {z,w} (thorough: all six), (fs,n) in {(2.5,100),(1.0,17)}} U {multiply(inplace) x4, assign "
+    "0.25*density, write the reversed density into the existing buffer}; after every generate the series must have "
+    "the variance of the object's CURRENT density and equal the series of a fresh equal-valued object; every call of "
+    "every family checks that the spectrum object is bit-for-bit unchanged. A member is non-trivial when the reference variance of that "
     "component is > 0 (resampled spectrum has energy at some k>=1 and the component's direction factor is not "
     "zero); distinct = distinct (spectrum, fs, nfft, component, seed) - an odd length and the even length below "
     "it are the same case."
@@ -62,6 +72,8 @@ REQUIRED_CATEGORIES = [
     "one_horizontal_zero", "beyond_grid_zero_bins", "below_grid_zero_bins", "endpoint_ambiguous",
     "zero_variance_trivial", "seed_pairs_compared", "scaled_series_compared", "same_seed_compared",
     "energy_at_nyquist_excluded", "dense_lengths", "offset_grid_last_bin", "offset_grid_other_bin",
+    "operand_unchanged_checked", "spectrum_on_fft_grid", "histories", "history_generate_after_mutation",
+    "history_same_request_after_mutation",
 ]
 
 SEEDS = [0, 1, 2 ** 32 - 1]
@@ -164,6 +176,17 @@ def units(tier):
             else:
                 u.update(lengths=[16, 17, 100, 1000], scales=[0.3], cost=4)
             us.append(u)
+    # on-grid family: the spectrum's own frequency grid IS the FFT grid of the request
+    for rate in fs:
+        for n in ([16, 17, 100] if tier == "quick" else [16, 17, 100, 101, 1000]):
+            for kind, extra in (("1d", {"shapes": ["ramp"]}), ("2d", {"dgrid": "N8", "bins": [1]})):
+                u = {"name": f"ongrid:{kind}:fs{rate}:n{n}", "kind": kind, "grid": f"fft(fs={rate},n={n})", "shape": "ramp",
+                     "ongrid": n, "fs": rate, "lengths": [n], "seeds": [0, 1], "scales": [], "family": "ongrid", "cost": 1}
+                u.update(extra)
+                us.append(u)
+    # history family: one object, every sequence of <= 3 generate / in-place-mutate events
+    for kind in ("1d", "2d"):
+        us.append({"name": f"history:{kind}", "kind": "history", "object": kind, "fs": 0.0, "cost": 6})
     rates, lengths, comps = dense_axes(tier)
     for rate in rates:
         kinds = [("2d", {"dgrid": "N8", "bins": [1]})]
@@ -240,8 +263,14 @@ def spectra_for(unit):
     energetic direction bin (or the 1D density), dtheta, theta_deg or None)."""
     tier = unit["tier"]
     out = []
+    if "ongrid" in unit:
+        # the spectrum is defined exactly on the FFT grid of the request (bit-identical nodes)
+        nfft = 2 * (unit["ongrid"] // 2)
+        fgrid_unit = np.linspace(0, 0.5 * unit["fs"], nfft // 2, endpoint=False)
+    else:
+        fgrid_unit = GRIDS[unit["grid"]]
     if unit["kind"] == "1d":
-        f = GRIDS[unit["grid"]]
+        f = fgrid_unit
         for sh in unit["shapes"]:
             e = shape_values(sh, f)
 
@@ -253,7 +282,7 @@ def spectra_for(unit):
 
             out.append(({"kind": "1d", "grid": unit["grid"], "shape": sh}, build, f, e, 1.0, None))
     else:
-        f = GRIDS[unit["grid"]]
+        f = fgrid_unit
         d = offset_grid(unit["origin"]) if "origin" in unit else dir_grids(tier)[unit["dgrid"]]
         dname = f"off{unit['origin']}" if "origin" in unit else unit["dgrid"]
         e = shape_values(unit["shape"], f)
@@ -272,6 +301,8 @@ def spectra_for(unit):
 def run_unit(unit):
     from ocean_science_utilities.wavespectra.timeseries import surface_timeseries
 
+    if unit["kind"] == "history":
+        return run_history(unit)
     c = Collector()
     tier = unit["tier"]
     _, lengths, scales = axes(tier)
@@ -297,6 +328,7 @@ def run_unit(unit):
 
     for skey, build, fgrid, e, dtheta, theta in spectra_for(unit):
         spec = build(1.0)
+        fp0 = fingerprint(spec)
         scaled = {sc: build(sc) for sc in scales}
         is2d = theta is not None
         for n in lengths:
@@ -310,6 +342,12 @@ def run_unit(unit):
                     c.evaluations += 1
                     c.case(key)
                     r = gen(key, comp, n, spec, seed)
+                    # ---- a generator must not modify its input ---------------------------------
+                    c.cat("operand_unchanged_checked")
+                    if fingerprint(spec) != fp0:
+                        c.violation(dict(key, check="operand modified"),
+                                    "surface_timeseries changed the spectrum object it was given: " + fp_diff(fp0, fingerprint(spec)))
+                        spec = build(1.0)
                     if r is None:
                         continue
                     t, z = r
@@ -427,6 +465,8 @@ def run_unit(unit):
                 c.cat("energy_at_nyquist_excluded")
             if unit.get("family") == "dense":
                 c.cat("dense_lengths")
+            if unit.get("family") == "ongrid":
+                c.cat("spectrum_on_fft_grid")
             if "origin" in unit:
                 c.cat("offset_grid_last_bin" if skey["bin"] == 7 else "offset_grid_other_bin")
             c.cat("endpoint_ambiguous", ref["amb"])
@@ -442,6 +482,130 @@ def run_unit(unit):
         if rs["z"][0] > 0:
             c.sample({"spectrum": skey, "fs": fs, "n": ns, "component": "z", "seeds": seeds,
                       "reference_variance_z": rs["z"][0], "reference_variance_w": rs["w"][0], "df": rs["df"]})
+    return c.result()
+
+
+def fingerprint(spec):
+    """Every variable and coordinate of the spectrum object, bit for bit."""
+    ds = spec.dataset
+    return tuple((str(k), tuple(ds[k].dims), str(ds[k].dtype), ds[k].values.tobytes()) for k in sorted(ds.variables, key=str))
+
+
+def fp_diff(a, b):
+    da, db = {x[0]: x for x in a}, {x[0]: x for x in b}
+    return "variables that differ: " + ", ".join(sorted(k for k in set(da) | set(db) if da.get(k) != db.get(k)))
+
+
+# ------------------------------------------------------------------------------------------
+# history family: the same spectrum object is used, changed in place, and used again
+# ------------------------------------------------------------------------------------------
+HISTORY_REQUESTS = [(2.5, 100), (1.0, 17)]
+MUTATORS = ["multiply_inplace_x4", "assign_x0.25", "buffer_write_reversed"]
+
+
+def history_events(tier):
+    comps = ["z", "w"] if tier == "quick" else list(COMPONENTS)
+    return [("gen", comp, fs, n) for fs, n in HISTORY_REQUESTS for comp in comps] + [("mut", m) for m in MUTATORS]
+
+
+def apply_mutator(spec, e, name):
+    """Change the spectrum object in place; returns the variance density the object now holds
+    (model: plain numpy on the harness's own copy)."""
+    if name == "multiply_inplace_x4":
+        spec.multiply(np.full(spec.shape(), 4.0), inplace=True)
+        return e * 4.0
+    if name == "assign_x0.25":
+        spec.dataset["variance_density"] = spec.dataset["variance_density"] * 0.25
+        return e * 0.25
+    if name == "buffer_write_reversed":
+        buf = spec.dataset["variance_density"].values
+        buf[...] = buf[::-1].copy()  # reversed along frequency, written into the existing buffer
+        return e[::-1].copy()
+    raise ValueError(name)
+
+
+def run_history(unit):
+    import itertools
+
+    from ocean_science_utilities.wavespectra.timeseries import surface_timeseries
+
+    c = Collector()
+    tier = unit["tier"]
+    is2d = unit["object"] == "2d"
+    f = GRID_B
+    e0 = shape_values("ramp", f)
+    nd, jbin = 8, 1
+    d = np.arange(nd) * 45.0
+    dtheta, theta = (45.0, float(d[jbin])) if is2d else (1.0, None)
+    seed = 1
+
+    def build(e):
+        if is2d:
+            e2 = np.zeros((len(f), nd))
+            e2[:, jbin] = e
+            return make_2d(f, d, e2)
+        return make_1d(f, e)
+
+    events = history_events(tier)
+    nhist = 0
+    for length in (1, 2, 3):
+        for seq in itertools.product(events, repeat=length):
+            if seq[-1][0] != "gen":
+                continue  # named restriction: a history ends with a generate (its prefixes cover the rest)
+            nhist += 1
+            names = [ev[1] if ev[0] == "mut" else f"gen({ev[1]},fs={ev[2]},n={ev[3]})" for ev in seq]
+            spec = build(e0)
+            e = e0.copy()
+            mutated = False
+            c.case(names)
+            for step, ev in enumerate(seq):
+                if ev[0] == "mut":
+                    e = apply_mutator(spec, e, ev[1])
+                    mutated = True
+                    c.cat("history_mutations")
+                    continue
+                _, comp, fs, n = ev
+                key = {"family": "history", "object": unit["object"], "history": names, "step": step}
+                c.evaluations += 1
+                fp = fingerprint(spec)
+                try:
+                    t, z = surface_timeseries(comp, fs, n, spec, seed=seed)
+                    zf = surface_timeseries(comp, fs, n, build(e), seed=seed)[1]
+                except Exception as exc:  # noqa
+                    import traceback
+
+                    c.violation(dict(key, check="raises"), f"surface_timeseries raised {type(exc).__name__}: {exc}",
+                                traceback=traceback.format_exc()[-1500:])
+                    break
+                z = np.asarray(z)
+                zf = np.asarray(zf)
+                if fingerprint(spec) != fp:
+                    c.violation(dict(key, check="operand modified"),
+                                "surface_timeseries changed the spectrum object it was given: " + fp_diff(fp, fingerprint(spec)))
+                ref = reference(f, e, fs, n, dtheta, theta)
+                lo, hi = ref[comp]
+                vtot = ref["z"][1] if comp in ("z", "x", "y") else ref["w"][1]
+                tol = 1e-10 * hi + 1e-13 * vtot + 1e-12 * ref["m0sq"]
+                v = popvar(z)
+                if z.shape != (ref["nfft"],) or not (lo - tol <= v <= hi + tol):
+                    c.violation(dict(key, check="variance"),
+                                f"after {names[:step]}: var({comp})={v!r}, the object's current variance density implies {lo!r}"
+                                + ("" if lo == hi else f"..{hi!r}") + f" (ratio {v / hi if hi else float('nan'):.12g})",
+                                variance=v, reference=[lo, hi])
+                amax = float(np.max(np.abs(zf))) if zf.size else 0.0
+                if zf.shape != z.shape or not np.all(np.abs(z - zf) <= 1e-12 * amax):
+                    err = float(np.max(np.abs(z - zf))) if zf.shape == z.shape else None
+                    c.violation(dict(key, check="fresh object"),
+                                f"after {names[:step]}: the series differs from the one a fresh object with the same variance "
+                                f"density gives for the same seed (max abs difference {err}, max|z| {amax})")
+                c.cat("history_generate_after_mutation" if mutated else "history_generate_unmutated")
+                if step > 0 and any(x[0] == "gen" and x[2:] == ev[2:] for x in seq[:step]) and mutated:
+                    c.cat("history_same_request_after_mutation")
+                if lo > 0:
+                    c.nontriv((unit["object"], tuple(names), step))
+    c.cat("histories", nhist)
+    c.sample({"family": "history", "object": unit["object"], "events": [str(ev) for ev in events], "histories": nhist,
+              "example": ["gen(z,fs=2.5,n=100)", "multiply_inplace_x4", "gen(z,fs=2.5,n=100)"]})
     return c.result()
 
 
